@@ -17,6 +17,9 @@ import ast
 from .core import AnalysisError, clone, norm, walk_no_nested
 
 
+MUTATORS = {'append', 'extend', 'insert', 'pop', 'remove', 'clear', 'sort', 'reverse', 'update', 'add', 'discard', 'setdefault', 'popitem', 'write'}
+
+
 class Opaque(ast.AST):
     """placeholder for a value the substitution cannot express (assigned in a loop, ...)"""
     _fields = ('why',)
@@ -337,12 +340,26 @@ class Enumerator:
         if isinstance(st, ast.Expr):
             path.events.append(('effect', subst(st, env), st))
             _forget_attrs(path)
+            # in-place mutation of a local container: its substituted value no longer describes it
+            c = st.value
+            if isinstance(c, ast.Call) and isinstance(c.func, ast.Attribute) and isinstance(c.func.value, ast.Name) and c.func.value.id in env \
+                    and c.func.attr in MUTATORS:
+                path.env[c.func.value.id] = _opaque('mutated by .%s()' % c.func.attr, st)
             return [path]
         if isinstance(st, ast.Delete):
             path.events.append(('effect', subst(st, env), st))
             for t in st.targets:
                 if isinstance(t, ast.Name):
                     path.env.pop(t.id, None)
+                elif isinstance(t, ast.Subscript) and isinstance(t.value, ast.Name) and t.value.id in env:
+                    cur = env[t.value.id]
+                    if isinstance(t.slice, ast.Constant) and t.slice.value == 0:
+                        # del xs[0]: the rest of the sequence
+                        v = ast.Subscript(value=clone(cur), slice=ast.Slice(lower=ast.Constant(value=1), upper=None, step=None), ctx=ast.Load())
+                        ast.fix_missing_locations(ast.copy_location(v, st))
+                        path.env[t.value.id] = v
+                    else:
+                        path.env[t.value.id] = _opaque('item deleted', st)
             return [path]
         if isinstance(st, (ast.For, ast.While)):
             if self.loop_handler is not None:
@@ -409,6 +426,8 @@ class Enumerator:
                     nxt.extend(self.assign(t, v, p, st))
                 paths = nxt
             return paths
+        if isinstance(target, ast.Subscript) and isinstance(target.value, ast.Name) and target.value.id in path.env:
+            path.env[target.value.id] = _opaque('item assigned', st)
         # attribute / subscript store: an effect, in order; a plain attribute store is also forwarded to later
         # loads of the same attribute text on this path (until an opaque effect may have changed it)
         tt = norm(subst(target, path.env))
